@@ -329,6 +329,9 @@ pub struct QGen<'a> {
     pub safe_quotes: bool,
     /// allow the stub-only function `reenter` (only where both sides of a comparison are the stub)
     pub reenter: bool,
+    /// allow functions nobody defines (`frob(@)`): they go to `extension_custom`, whose provided body
+    /// and Value's fall-through both answer null
+    pub unknown_fn: bool,
 }
 
 impl<'a> QGen<'a> {
@@ -589,6 +592,17 @@ impl<'a> QGen<'a> {
     fn atom(&self, rng: &mut Rng, depth: usize) -> String {
         let w_regex = if self.regex { 3 } else { 0 };
         let w_ext = if self.ext { 2 } else { 0 };
+        if self.unknown_fn && rng.chance(1, 40) {
+            let arg = if rng.chance(1, 2) { "@".to_string() } else { self.singular(rng) };
+            let name = *rng.pick(&["frob", "custom_fn", "is_even"]);
+            return match rng.below(5) {
+                0 => format!("value({}({})) == null", name, arg),
+                1 => format!("value({}({})) != false", name, arg),
+                2 => format!("{}({})", name, arg),
+                3 => format!("!{}({}, 1)", name, arg),
+                _ => format!("count({}({})) == 1", name, arg),
+            };
+        }
         match rng.weighted(&[8, 5, w_regex, w_ext, if depth < 3 { 2 } else { 0 }]) {
             0 => {
                 let op = rng.pick(&["==", "!=", "<", "<=", ">", ">="]);
